@@ -408,7 +408,11 @@ const BIG: &[&str] = &[
 const VALS: &[&str] = &[
     "1", "0", "255", "256", "-1", "\"s\"", "\"\"", "\"5\"", "\"-5\"", "\"true\"", "true", "false", "'c'", "'\\u{10FFFF}'", "1.5", "b\"x\"", "b'x'", "c\"z\"",
     "x", "a::b", "::a", "x + 1", "[1, 2]", "[]", "(1, 2)", "|a| a", "f(1)", "\"a::b\"", "\"x +\"", "\"[1, 2\"", "r#\"raw\"#", "\"\\u{0}\"", "..", "1..2",
-    "&x", "!x", "-x", "x?", "if a { 1 } else { 2 }", "{ }", "m!()", "S { a: 1 }", "<T as U>::V", "\"where\"", "\"T: Clone\"", "\"pub(crate)\"", "\"fn(u8) -> u8\"",
+    "&x", "!x", "-x", "x?", "if a { 1 } else { 2 }", "{ }", "m!()", "S { a: 1 }", "<T as U>::V",
+    // every remaining expression kind (each has its own name in "unexpected expression type" errors)
+    "async { 1 }", "x.await", "break", "break 'l 1", "const { 1 }", "continue", "for a in b { }", "let a = b", "loop { }", "return x", "unsafe { 1 }",
+    "while a { }", "yield x", "x as u8", "x = 1", "x += 1", "x[0]", "x.f", "x.m()", "match x { _ => 1 }", "[x; 2]", "&raw const x", "'l: loop { }", "x..=y", "..",
+    "move || 1", "static || 1", "(x)", "(x,)", "-1", "- 1", "-1.5", "1u8", "1_u128", "b'\\n'", "c\"x\"", "\"where\"", "\"T: Clone\"", "\"pub(crate)\"", "\"fn(u8) -> u8\"",
 ];
 
 pub fn arb_value(d: &mut D) -> String {
